@@ -117,3 +117,98 @@ def wrap_loops(prog, scope, an, floor=20, strict_fns=()):
                               'bound %s' % (iv,)))
                 break
     return RuleResult('WRAP-LOOP', obs, floor, {})
+
+
+def shift_term(prog):
+    """SHIFT-TERM: a loop that ends when a variable reaches 0 and changes it only by shifting right (or dividing) by a
+    constant ends for every start value only if the variable is unsigned: an arithmetic shift of a negative value settles at
+    -1 and never reaches 0 (add_bin_varint with a signed accumulator: `i32.const -1` never ends and fills memory)."""
+    from nk.facts import kids, strip, const, show, walk
+    from nk.cfg import natural_loops
+    from nk.report import Ob, RuleResult, DISCHARGED, VIOLATED
+    from nk.build import AnalysisBroken
+    obs = []
+    for fn in sorted(prog.fns.values(), key=lambda f: (f.file, f.line)):
+        if not fn.blocks:
+            continue
+        for h, body in sorted(natural_loops(fn).items()):
+            upd = {}
+            for b in body:
+                for e in fn.blocks[b]['e']:
+                    x = fn.nodes.get(e)
+                    if x is None:
+                        continue
+                    if x['k'] == 'CompoundAssignOperator':
+                        t = strip(kids(x)[0])
+                        if t['k'] == 'DeclRefExpr':
+                            kind = 'shift' if x.get('op') in ('>>=', '/=') and const(kids(x)[1]) else 'other'
+                            upd.setdefault(t['d'], []).append((kind, x))
+                    elif x['k'] == 'BinaryOperator' and x.get('op') == '=':
+                        t = strip(kids(x)[0])
+                        r = strip(kids(x)[1], casts=True)
+                        if t['k'] == 'DeclRefExpr':
+                            sh = r['k'] == 'BinaryOperator' and r.get('op') in ('>>', '/') and const(kids(r)[1]) and \
+                                strip(kids(r)[0], casts=True).get('d') == t['d']
+                            upd.setdefault(t['d'], []).append(('shift' if sh else 'other', x))
+                    elif x['k'] == 'UnaryOperator' and x.get('op') in ('++', '--'):
+                        t = strip(kids(x)[0])
+                        if t['k'] == 'DeclRefExpr':
+                            upd.setdefault(t['d'], []).append(('other', x))
+            for d, us in sorted(upd.items(), key=lambda kv: kv[1][0][1]['i']):
+                if not all(k == 'shift' for k, _ in us):
+                    continue
+                tests = []
+                for b in body:
+                    cn = fn.nodes.get(fn.blocks[b].get('cond')) if 'cond' in fn.blocks[b] else None
+                    if cn is not None and any(x['k'] == 'DeclRefExpr' and x.get('d') == d for x in walk(cn)) and \
+                            any(s is not None and s not in body for s in fn.blocks[b]['s']):
+                        tests.append(cn)
+                if not tests:
+                    continue
+                lhs = strip(kids(us[0][1])[0])
+                t = (fn.type(lhs) or '').replace('const ', '')
+                unsigned = t.startswith('unsigned') or t.startswith('uint') or t in ('size_t', 'bool')
+                obs.append(Ob('SHIFT-TERM', fn.file, us[0][1]['l'], fn.q, 'loop:%s' % lhs.get('n'), DISCHARGED if unsigned else VIOLATED,
+                              '' if unsigned else '`%s` (%s) is only shifted right inside the loop and the loop ends on `%s`: for a negative '
+                              'start value the arithmetic shift stays at -1 and the loop never ends' % (lhs.get('n'), t, show(tests[0])[:40]),
+                              '%s is %s: every right shift brings it closer to 0' % (lhs.get('n'), t), False))
+    if len(obs) < 2:
+        raise AnalysisBroken('SHIFT-TERM: only %d shift-until-zero loops found' % len(obs))
+    return RuleResult('SHIFT-TERM', obs, 2, {})
+
+
+VLA_ACCEPTED = {
+    ('fileio/write_elf.cpp', 'write_elf', 'symbol_address'):
+        'one int per exported symbol: the 8 MiB stack holds two million of them, and a source with that many `.export` lines '
+        'does not finish assembling (symbol lookup is linear per definition); not replayable as a crash',
+}
+
+
+def vla(prog, scope):
+    """VLA-BOUND: no variable-length array on the stack in the assembler and its writers.  The length of such an array is a
+    run-time quantity derived from the source (size of a .repeat body, number of symbols); nothing bounds it by the stack
+    size, and a body larger than the stack (`.repeat 2` / `resb 9000000` / `.endr`) ends the process with SIGSEGV.
+    Arrays listed in VLA_ACCEPTED are kept with their reason."""
+    import re
+    from nk.report import Ob, RuleResult, DISCHARGED, VIOLATED, OBSERVATION
+    obs = []
+    nfn = 0
+    for fn in sorted(prog.fns.values(), key=lambda f: (f.file, f.line)):
+        if not fn.blocks or not scope(fn):
+            continue
+        nfn += 1
+        for n in fn.nodes.values():
+            if n['k'] != 'DeclStmt':
+                continue
+            for d in n.get('decls', ()):
+                t = fn.types[d['t']] if isinstance(d.get('t'), int) else ''
+                if '[' in t and not re.search(r'\[\d+\]', t) and '*' not in t.split('[')[0][-2:]:
+                    why = VLA_ACCEPTED.get((fn.file, fn.q, d['n']))
+                    obs.append(Ob('VLA-BOUND', fn.file, n['l'], fn.q, 'vla:%s' % d['n'], OBSERVATION if why else VIOLATED,
+                                  ('accepted: ' + why) if why else '`%s %s` is a variable-length array on the stack: its length comes from the '
+                                  'input and is not bounded by the stack size, a large value ends the process with SIGSEGV' % (t, d['n'])))
+    obs.append(Ob('VLA-BOUND', 'core/', 0, '*', 'functions:%d' % (nfn // 100 * 100), DISCHARGED, '',
+                  '%d functions scanned, no other variable-length array' % nfn, False))
+    if nfn < 300:
+        raise AnalysisBroken('VLA-BOUND: only %d functions in scope' % nfn)
+    return RuleResult('VLA-BOUND', obs, 1, {})
